@@ -37,12 +37,14 @@ PATCHES = {
     # the imports edited by two changes of one run (the specs astutil adds carry the position of a neighbour and the length of their path)
     "import-two-changes": "@@\nvar x expression\n@@\n+import \"example.com/newpkg\"\n\n-foo(x)\n+newpkg.Foo(x)\n\n@@\nvar x expression\n@@\n-import \"os\"\n+import \"example.com/a/much/longer/path/newos\"\n\n-os.Exit(x)\n+newos.Exit(x)\n",
     "import-three-changes": "@@\nvar x expression\n@@\n+import \"example.com/some/long/path/newpkg\"\n\n-foo(x)\n+newpkg.Foo(x)\n\n@@\nvar x expression\n@@\n+import \"example.com/another/long/path/kept\"\n\n-keep(x)\n+kept.Keep(x)\n\n@@\nvar x expression\n@@\n-import \"os\"\n+import \"example.com/newos\"\n\n-os.Exit(x)\n+newos.Exit(x)\n",
+    # several import declarations, the middle one deleted
+    "import-delete-middle": "@@\nvar x expression\n@@\n-import \"os\"\n\n-os.Exit(x)\n+exit(x)\n",
     "two-changes": "@@\nvar x expression\n@@\n-foo(x)\n+bar(x)\n\n@@\nvar y expression\n@@\n-bar(y)\n+baz(y, 1)\n",
     "three-changes": "@@\nvar x expression\n@@\n-keep(x)\n+kept(x)\n\n@@\n@@\n-func target() error {\n+func renamed() error {\n   ...\n }\n\n@@\nvar y expression\n@@\n-foo(y)\n+bar(y)\n",
 }
 
 
-NEED = {"stmt-delete": 4, "lock": 5, "if-err": 6, "import-replace": 7, "two-stmts-away": 0, "import-two-changes": 7, "import-three-changes": 7}
+NEED = {"import-delete-middle": 7, "stmt-delete": 4, "lock": 5, "if-err": 6, "import-replace": 7, "two-stmts-away": 0, "import-two-changes": 7, "import-three-changes": 7}
 
 
 def body_site(rng, i, need=None):
@@ -107,7 +109,9 @@ def gen_file(rng, pn=""):
         hdr += "// Package p is documented.\n"
     hdr += "package p" + (" // pkg-trailing" if rng.random() < 0.3 or first_special else "") + "\n"
     parts.append(hdr)
-    if (rng.random() < 0.6 and not first_special) or any(x.startswith("import-") and x != "import-add" for x in pns):
+    if "import-delete-middle" in pns:
+        parts.append("import \"fmt\" // fmt-trailing\n\n// about os\nimport \"os\"\n\n// doc strings\nimport \"strings\" // strings-trailing\n\nvar _ = fmt.Sprint(strings.ToUpper(\"x\"))\n")
+    elif (rng.random() < 0.6 and not first_special) or any(x.startswith("import-") and x != "import-add" for x in pns):
         parts.append("import (\n\t\"fmt\" // fmt-trailing\n\t// about os\n\t\"os\"\n)\n")
     for i in range(n):
         d = ""
@@ -311,11 +315,19 @@ def main():
             if rp[0] == "none":
                 ck.tally("astdiff_theorem", "no declaration list found"); continue
             ck.tally("astdiff_theorem", "side conditions of C17_identical_declaration hold" if rp[0] == "1" else "side conditions not met (a nested comment beyond its declaration, rewritten positions)")
-            for j, att, clr in rp[1]:
+            gone = set(c["off"] for c in (s["cbefore"] or [])) - set(c["off"] for c in (s["cafter"] or []))
+            for j, att, clr, unclear in rp[1]:
                 ck.tally("identical_declarations", "comments attached=%s, all spans clear of them=%s, side conditions=%s" % (att, clr, rp[0]))
                 if rp[0] == "1" and att == "1" and clr != "1":
                     ck.mismatch("step %d: declaration #%s is paired as identical, the side conditions of C17_identical_declaration_is_clear_of_every_span "
                                 "hold, yet a span reaches one of its comments: the executable model contradicts its theorem" % (si, j), dict(rep, step=si), CORR_AD)
+                # direct oracle at the level of the spans: a comment the comment map attaches to a declaration in which
+                # nothing changed (paired as identical) is deleted by this step
+                lost = [int(a) for a, b in unclear if int(a) in gone]
+                if lost:
+                    texts = [c["text"] for c in (s["cbefore"] or []) if c["off"] in lost]
+                    ck.violation("step %d: top-level declaration #%s did not change (astdiff pairs it as identical) but its comment(s) %s lie inside a span "
+                                 "astdiff reports as changed and are deleted" % (si, j, texts[:3]), dict(rep, step=si, lost=texts))
         # ---- (2) the hypothesis of C17_untouched_general: nothing reported as changed reaches into an untouched declaration or the header
         I0, O = r["in"], r["out_owned"]
         al = align(I0, O)
